@@ -32,9 +32,18 @@ def gen(rng, broker, tier):
     prios = rng.choice([[5], [5], [5], [0, 5, 9]])
     msgs = []
     for i in range(n):
-        msgs.append({"id": f"m{i}", "topic": "t1" if rng.random() < 0.8 else "tx", "prio": rng.choice(prios),
-                     "gap_us": rng.choice([0, 0, 0, 300, 5000, 60_000]),
-                     "reject": rng.random() < 0.12})
+        m = {"id": f"m{i}", "topic": "t1" if rng.random() < 0.8 else "tx", "prio": rng.choice(prios),
+             "gap_us": rng.choice([0, 0, 0, 300, 5000, 60_000]), "reject": rng.random() < 0.12}
+        if m["reject"]:
+            m["pause_us"] = rng.choice([0, 0, 2000, 30_000, 200_000])
+        if rng.random() < 0.12:
+            # the shape of a retried / rescheduled message whose time has come: a next execution time in the past.
+            # Such messages are only used for the 'returned message' clause, not for the enqueue-order comparison.
+            m["past_us"] = rng.choice([1000, 500_000, 3_600_000_000])
+            m["reject"] = rng.random() < 0.7
+            if m["reject"]:
+                m["pause_us"] = rng.choice([0, 2000, 30_000, 200_000])
+        msgs.append(m)
     return {"msgs": msgs, "topics": rng.choice([None, ["t1"], ["t1"]]),
             "consumer_start_us": rng.choice([0, 0, 1000, 100_000, 10_000_000]),
             "think_us": rng.choice([0, 0, 500, 20_000]),
@@ -48,7 +57,9 @@ async def _main(sim, sc, out):
     b = sc["broker"]
     world = await World(sim, b, nodes=("c", "p"), buckets="none", knobs=sc.get("knobs")).setup()
     from repid.data._key import RoutingKey
-    from repid.data._parameters import Parameters
+    from datetime import timedelta
+
+    from repid.data._parameters import DelayProperties, Parameters
 
     for n in ("c", "p"):
         await sim.loop.spawn(n, r.Queue("q", _connection=world.conn(n)).declare())
@@ -73,7 +84,10 @@ async def _main(sim, sc, out):
             key = RoutingKey(id_=m["id"], topic=m["topic"], queue="q", priority=m["prio"])
             enq_begin[m["id"]] = rec._next()
             enq_begin_us[m["id"]] = sim.clock.us
-            await mb.enqueue(key, f'{{"m":"{m["id"]}"}}', Parameters(timestamp=sim.clock.now()))
+            delay = DelayProperties()
+            if m.get("past_us"):
+                delay = DelayProperties(next_execution_time=sim.clock.now() - timedelta(microseconds=m["past_us"]))
+            await mb.enqueue(key, f'{{"m":"{m["id"]}"}}', Parameters(timestamp=sim.clock.now(), delay=delay))
             enq_end[m["id"]] = rec._next()
         prod_done[0] = True
 
@@ -109,6 +123,10 @@ async def _main(sim, sc, out):
                 await mb.reject(key)
                 returns.setdefault(key.id_, []).append((s0, rec._next()))
                 return_us[key.id_] = sim.clock.us
+                if msgs[key.id_].get("pause_us"):
+                    # the holder goes away for a while after giving the message back (as a stopping worker does):
+                    # later arrivals pile up behind the returned message
+                    await asyncio.sleep(msgs[key.id_]["pause_us"] / 1e6)
             else:
                 await mb.ack(key)
                 done.add(key.id_)
@@ -137,7 +155,7 @@ async def _main(sim, sc, out):
     order = [i for i in matching if i in first_delivery]
     for ai, a in enumerate(order):
         for bb in order[ai + 1:]:
-            if msgs[a]["prio"] != msgs[bb]["prio"]:
+            if msgs[a]["prio"] != msgs[bb]["prio"] or msgs[a].get("past_us") or msgs[bb].get("past_us"):
                 continue
             if a not in enq_end or bb not in enq_begin or not enq_end[a] < enq_begin[bb]:
                 continue
@@ -166,6 +184,8 @@ async def _main(sim, sc, out):
         redeliv = later[0]
         for x in order:
             # network brokers: a reject is on the wire for up to one latency after reject() returned
+            if msgs[x].get("past_us"):
+                continue  # a message with an earlier due time may legitimately come first
             if x != a and msgs[x]["prio"] == msgs[a]["prio"] and enq_begin.get(x, 0) > s1 and first_delivery[x] < redeliv \
                     and enq_begin_us.get(x, 0) > return_us.get(a, 0) + grace_us:
                 V.append(violation("returned-message-overtaken", f"C15/{b}/returned-message-overtaken-by-later-arrival",
